@@ -35,6 +35,33 @@ def aff(salt, coefs, vals):
     return (salt + sum(c * v for c, v in zip(coefs, vals))) % P
 
 
+class LP(list):
+    """a per-observation log-probability vector; has the .sum() that Dist.update / _reduced_sum look for"""
+
+    def sum(self):
+        return sum(self)
+
+
+def bad(x):
+    """stands for a value of the wrong shape (vector where a scalar is due or vice versa): an integer that no
+    node function produces for these arguments"""
+    return (int(x) * 7 + 13) % P + P
+
+
+def canon_lp(x, d):
+    """canonical integer of what a distribution node built from the description d shows: the summed
+    log-probability; per_obs=True nodes with a vector-valued log_prob must show the vector [t - split, split],
+    all others a scalar"""
+    per_obs, vec = d.get("per_obs", True), d.get("vec", False)
+    if isinstance(x, LP):
+        if per_obs and vec and len(x) == 2 and x[1] == d.get("split", 7):
+            return sum(x)
+        return bad(sum(x) + 1)
+    if per_obs and vec and x is not None:
+        return bad(x)
+    return x
+
+
 def apply_fs(fs, vals):
     if fs[0] == "aff":
         return aff(fs[1], fs[2], vals)
@@ -51,13 +78,22 @@ def apply_fs(fs, vals):
 KW = ["a", "b", "c"]
 
 
-def gen_spec(rnd: random.Random, nitems: int, flavour: str = "mixed") -> dict:
+def gen_spec(rnd: random.Random, nitems: int, flavour: str = "mixed", per_obs: bool = False) -> dict:
     """items refer to earlier items by index; ref = idx (the node / the Var) or [idx, "vn"] (value node
     of a Var, read directly)"""
     items: list[dict] = []
 
     def fs_for(nargs):
         return ["aff", rnd.randint(0, 999), [rnd.randint(1, 9) for _ in range(nargs)]]
+
+    def shape(d):
+        """per_obs in {True, False} x scalar / vector-valued log_prob (only when asked for: other checks
+        reuse this generator with the default per_obs=True, scalar)"""
+        if per_obs:
+            d["per_obs"] = rnd.random() < 0.55
+            d["vec"] = rnd.random() < (0.4 if d["per_obs"] else 0.85)
+            d["split"] = rnd.randint(1, 9)
+        return d
 
     def pick_refs(k, allow_group):
         refs = []
@@ -108,8 +144,8 @@ def gen_spec(rnd: random.Random, nitems: int, flavour: str = "mixed") -> dict:
         elif k in ("dist", "tdist"):
             ins, kws, kwn = args(lo=1, hi=2)
             at = None if rnd.random() < 0.7 else (pick_refs(1, False) or [None])[0]
-            items.append({"k": k, "ins": ins, "kw": kws, "kwn": kwn, "at": at, "atv": rnd.randint(-50, 50),
-                          "fs": fs_for(len(ins) + len(kws) + 1)})
+            items.append(shape({"k": k, "ins": ins, "kw": kws, "kwn": kwn, "at": at, "atv": rnd.randint(-50, 50),
+                                "fs": fs_for(len(ins) + len(kws) + 1)}))
         else:  # svar / wvar
             it = {"k": "var", "weak": k == "wvar", "role": rnd.choice(["", "", "obs", "par"])}
             if k == "svar":
@@ -120,8 +156,8 @@ def gen_spec(rnd: random.Random, nitems: int, flavour: str = "mixed") -> dict:
                           tvalue=rnd.random() < 0.15)     # value node is a TransientCalc
             if items and rnd.random() < (0.65 if k == "wvar" else 0.5):
                 dins, dkws, dkwn = args(lo=1, hi=2)
-                it["dist"] = {"ins": dins, "kw": dkws, "kwn": dkwn, "fs": fs_for(len(dins) + len(dkws) + 1),
-                              "transient": rnd.random() < 0.12}
+                it["dist"] = shape({"ins": dins, "kw": dkws, "kwn": dkwn, "fs": fs_for(len(dins) + len(dkws) + 1),
+                                    "transient": rnd.random() < 0.12})
             items.append(it)
     return {"items": items}
 
@@ -142,6 +178,7 @@ class Real:
         self.log: list[str] = []
         self.logging = False
         self.group_fs: dict[int, list] = {}
+        self.dist_spec: dict[str, dict] = {}
         objs: list = []
         items = spec["items"]
         roots = []
@@ -158,6 +195,8 @@ class Real:
             it = ref_item(ref)
             if it["k"] == "group" and not isinstance(ref, list):
                 return self._canon_group(x, it)
+            if it["k"] in ("dist", "tdist") and not isinstance(ref, list):
+                return canon_lp(x, it)
             return x
 
         def make_fn(name, it, refs_in, refs_kw, kwn):
@@ -183,7 +222,12 @@ class Real:
                 def log_prob(self, at):
                     if outer.logging:
                         outer.log.append(name)
-                    return apply_fs(fs, self.vals + [at])
+                    t = apply_fs(fs, self.vals + [at])
+                    if d.get("vec"):
+                        c = d.get("split", 7)
+                        return LP([t - c, c])
+                    return t
+            outer.dist_spec[name] = d
             return HDist
 
         for i, it in enumerate(items):
@@ -206,6 +250,8 @@ class Real:
                 o = cls(make_dist(f"n{i}", it, it["ins"], it["kw"], it["kwn"]),
                         *[resolve(r) for r in it["ins"]], _name=f"n{i}",
                         **{n: resolve(r) for n, r in zip(it["kwn"], it["kw"])})
+                if not it.get("per_obs", True):
+                    o.per_obs = False
                 if it["at"] is None:
                     o.at = lsl.Value(it["atv"], _name=f"n{i}_at")
                 else:
@@ -219,6 +265,8 @@ class Real:
                     dist = cls(make_dist(f"v{i}_log_prob", d, d["ins"], d["kw"], d["kwn"]),
                                *[resolve(r) for r in d["ins"]],
                                **{n: resolve(r) for n, r in zip(d["kwn"], d["kw"])})
+                    if not d.get("per_obs", True):
+                        dist.per_obs = False
                 if it["weak"]:
                     cls = lsl.TransientCalc if it.get("tvalue") else lsl.Calc
                     val = cls(make_fn(f"v{i}_value", it, it["ins"], it["kw"], it["kwn"]),
@@ -325,6 +373,9 @@ class Real:
         if isinstance(self.nodes[k], self.lsl.InputGroup):
             it = self.spec["items"][int(self.order[k][1:])]
             return self._canon_group(v, it)
+        d = getattr(self, "dist_spec", {}).get(self.order[k])
+        if d is not None:
+            return canon_lp(v, d)
         return v
 
     def observe(self):
